@@ -25,6 +25,12 @@ func Gen(r *sx.Rng, idx int, focus string) sx.Tree {
 				nmain = 10
 			}
 			return sx.T(sx.L(1), sx.L(rate), sx.L(n), sx.L(r.Range(1, 3)), sx.L(nmain))
+		case idx%3500 == 8:
+			// very low rates (1/rate well above any per-wait timeout): n just above the burst, lower bound (n-100)/rate = 1..2 s.
+			// One such case per 3500 inputs: one in the quick tier (rotating by seed), more in the thorough tier.
+			rate := r.Range(1, 3)
+			n := 100 + rate + r.Range(0, rate)
+			return sx.T(sx.L(1), sx.L(rate), sx.L(n), sx.L(r.Range(1, 2)), sx.L(0))
 		case idx < 8:
 			// at or below the burst: no waiting at all is required (lower bound 0)
 			return sx.T(sx.L(1), sx.L(sx.Pick(r, int64(50), int64(1000))), sx.L(r.Range(1, 100)), sx.L(r.Range(1, 3)), sx.L(3))
